@@ -938,7 +938,7 @@ func generate(rng *rand.Rand, g genOpts) []*site {
 								}
 							}
 						}
-						// class shift-paren-const-left-iface-decl (F02-14) and its unparenthesised neighbour, always present
+						// the shape of the repaired finding F02-14 (parenthesised constant left operand) and its unparenthesised neighbour, always present
 						if k.Name == "int" && ci == 0 && (ctx == "ifacevar" || ctx == "ifaceret" || ctx == "ifaceret2" || ctx == "iface") {
 							for _, c := range []string{"-4", "4"} {
 								add(site{Op: o.Name, K: k.Name, K2: ck.Name, Form: "cl", CKind: "lit", Ctx: ctx, CL: c, YS: counts})
